@@ -8,10 +8,13 @@
    match is the child of that match named by the last step and holds the assigned value itself.
    C08_slot_*: inside that container exactly one slot changes: an overwrite keeps the key's position, a new key
    goes last, other keys keep their values; a list keeps its length and its other items, or grows by one item at
-   the end when the index equals the length. *)
+   the end when the index equals the length.
+   C08_assign_at_position: on a path of keys and indices the successful assignment is positional: the parent path
+   resolves to a node y of the document, the last step stores the value into y (`store`: d[k] = v, l[i] = v, or
+   append when i = len(l)) and the new document is the old one with y replaced at that position; nothing else. *)
 From Coq Require Import List ZArith String Bool PArith.
-From TP Require Import Json PyPrim Machine Api Mutate.
-From TP.proofs Require Import MutateProofs.
+From TP Require Import Json PyPrim Machine Api Mutate SpecSet.
+From TP.proofs Require Import MutateProofs CsetLemmas CascadeRefine.
 Import ListNotations.
 
 Theorem C08_failure_unchanged : forall B H depth fuel src doc p x tr nl e doc' nl' es,
@@ -64,3 +67,14 @@ Print Assumptions C08_list_length.
 Theorem C08_list_others : forall (A : Type) (l : list A) k j v, j <> k -> nth_error (set_nth l k v) j = nth_error l j.
 Proof. exact @set_nth_other. Qed.
 Print Assumptions C08_list_others.
+
+Theorem C08_assign_at_position :
+  forall (B H : positive) (depth fuel : nat) d0 doc (pp : list (vertex hp)) v x tr nl r doc' nl' es,
+    kipath (pp ++ [v]) = true -> NoDup (labels doc) ->
+    set_match B H depth (S fuel) (SrcDoc d0) doc (pp ++ [v]) x false tr nl = (r, doc', nl', es) ->
+    match r with
+    | Ok m => exists y y', lookup doc pp = Some y /\ store v x y = Some y' /\ doc' = put_at doc pp y' /\ tdata m = x
+    | Exn e => doc' = doc
+    end.
+Proof. exact set_match_plain. Qed.
+Print Assumptions C08_assign_at_position.
